@@ -18,4 +18,8 @@ namespace SourceShape
 `ConcurrentMap` is between that shard's `Lock` and `Unlock`. -/
 theorem map_sections : Facts.smapLocks = true ∧ Facts.cmapShardLocks = true := by decide
 
+/-- C19: the shard table of `ConcurrentMap` is assigned by the constructor only, so the lock an
+operation resolved for its key is still the lock of that key's shard when it acquires it. -/
+theorem shard_table_fixed : Facts.cmapShardTableFixed = true := by decide
+
 end SourceShape
